@@ -6,7 +6,7 @@ Parsed files are cached (pickle) next to the dump, keyed by the dump's content h
 import hashlib, os, pickle, re
 from dataclasses import dataclass, field
 
-PARSER_VERSION = 7
+PARSER_VERSION = 8
 
 
 @dataclass
@@ -336,6 +336,12 @@ def _parse_header(kind, rest):
             params.append((loc.strip(), ty.strip()))
         return name, params, ret
     body = rest.rstrip("=").rstrip()
+    d = 0
+    for i, c in enumerate(body):
+        if c == "<": d += 1
+        elif c == ">" and body[i - 1] not in "-=": d -= 1
+        elif d == 0 and body.startswith(": ", i):
+            return body[:i], [], body[i + 2:]
     name, ty = body.split(": ", 1)
     return name, [], ty
 
